@@ -27,19 +27,33 @@ fn rust_entry(src: &str, path: &Option<String>, modules: &[(String, String)], mo
         hp = Some(pr);
     }
     let first: Result<StepResult, JsError> = if mode == 0 { i.eval(src, mp) } else { i.prepare(src, mp) };
-    let o = if mode == 2 || hp.is_some() { drive_with_reads(&mut i, &log, first, &p, mode == 2, &mut hp) } else { drive(&mut i, &log, first, &p) };
+    let defer = src.contains("/*defer*/");
+    let o = if mode == 2 || hp.is_some() || defer { drive_with_reads(&mut i, &log, first, &p, mode == 2, &mut hp, defer) } else { drive(&mut i, &log, first, &p) };
     fmt(&o, exports_of(&i))
 }
 
 /// like common::drive, but the host reads state between steps (must not disturb anything)
-fn drive_with_reads(i: &mut Interpreter, log: &Log, first: Result<StepResult, JsError>, p: &Policy, reads: bool, hp: &mut Option<tsrun::RuntimeValue>) -> Obs {
+fn drive_with_reads(i: &mut Interpreter, log: &Log, first: Result<StepResult, JsError>, p: &Policy, reads: bool, hp: &mut Option<tsrun::RuntimeValue>, defer: bool) -> Obs {
     // reuse drive() one host-visible result at a time by stepping manually
     let mut o = Obs::default(); let mut r = first; let mut n = 0u64;
     let mut settled: Vec<tsrun::RuntimeValue> = vec![];
+    let mut deferred: Vec<(u64, tsrun::RuntimeValue)> = vec![];
     loop {
         if reads { let _ = (i.call_depth(), i.gc_stats().live_objects, api::get_export_names(i).len()); }
         match r {
             Ok(StepResult::Continue) => { n += 1; if n > p.budget { o.status = "budget".into(); break; } if reads && n % 7 == 0 { i.collect(); } r = i.step(); }
+            Ok(StepResult::Suspended { ref pending, ref cancelled }) if defer && (!pending.is_empty() || !deferred.is_empty()) => {
+                o.trace.push(format!("Susp({:?},{:?})", pending.iter().map(|x| x.id.0).collect::<Vec<_>>(), cancelled.iter().map(|x| x.0).collect::<Vec<_>>()));
+                if pending.is_empty() {
+                    let (id, pr) = deferred.remove(0);
+                    let _ = api::resolve_promise(i, &pr, tsrun::RuntimeValue::unguarded(tsrun::JsValue::from(format!("p{}", id)))); settled.push(pr);
+                } else {
+                    let mut resp = vec![];
+                    for x in pending.iter() { let pr = api::create_order_promise(i, x.id); resp.push(tsrun::OrderResponse { id: x.id, result: Ok(tsrun::RuntimeValue::unguarded(pr.value().clone())) }); deferred.push((x.id.0, pr)); }
+                    i.fulfill_orders(resp);
+                }
+                r = i.step();
+            }
             Ok(StepResult::Suspended { ref pending, .. }) if pending.is_empty() && hp.is_some() => {
                 o.trace.push("Susp([],hostP)".into());
                 if let Some(pr) = hp.take() { let _ = api::resolve_promise(i, &pr, tsrun::RuntimeValue::unguarded(tsrun::JsValue::from("HP"))); settled.push(pr); }
@@ -101,6 +115,7 @@ fn c_entry(src: &str, path: &Option<String>, modules: &[(String, String)], stepw
         if !pr.ok { status = "err".into(); err = errclass_from_msg(&rs(pr.error).unwrap_or_default()); }
         else {
             let mut n = 0u64;
+            let defer = src.contains("/*defer*/"); let mut deferred: Vec<(u64, *mut TsRunValue)> = vec![]; let mut settled: Vec<*mut TsRunValue> = vec![];
             loop {
                 n += 1; if n > 300_000 { status = "budget".into(); break; }
                 let mut r = if stepwise { tsrun_step(ctx) } else { tsrun_run(ctx) };
@@ -117,15 +132,25 @@ fn c_entry(src: &str, path: &Option<String>, modules: &[(String, String)], stepw
                         if !did { status = "need".into(); break; }
                     }
                     STEP_SUSPENDED => {
-                        let orders = std::slice::from_raw_parts(r.pending_orders, r.pending_count);
+                        let orders: &[TsRunOrder] = if r.pending_count > 0 && !r.pending_orders.is_null() { std::slice::from_raw_parts(r.pending_orders, r.pending_count) } else { &[] };
                         let cancelled = if r.cancelled_count > 0 { std::slice::from_raw_parts(r.cancelled_orders, r.cancelled_count).to_vec() } else { vec![] };
                         trace.push(format!("Susp({:?},{:?})", orders.iter().map(|o| o.id).collect::<Vec<_>>(), cancelled));
-                        if orders.is_empty() { status = "stuck".into(); tsrun_step_result_free(&mut r); break; }
+                        if orders.is_empty() {
+                            // deferred answers: settle the oldest promise still pending, else nothing is left to do
+                            if deferred.is_empty() { status = "stuck".into(); tsrun_step_result_free(&mut r); break; }
+                            let (id, pv) = deferred.remove(0); let s = cs(&format!("p{}", id)); let v = tsrun_string(ctx, s.as_ptr());
+                            let rr = tsrun_resolve_promise(ctx, pv, v); let _ = rr; tsrun_value_free(v); settled.push(pv);
+                            tsrun_step_result_free(&mut r); continue;
+                        }
                         let mut vals = vec![]; let mut resp = vec![];
-                        for o in orders { let s = cs(&format!("v{}", o.id)); let v = tsrun_string(ctx, s.as_ptr()); vals.push(v); resp.push(TsRunOrderResponse { id: o.id, value: v, error: std::ptr::null() }); }
+                        for o in orders {
+                            if defer { let pr = tsrun_create_order_promise(ctx, o.id); if pr.value.is_null() { status = "err".into(); err = "create_order_promise".into(); break; } deferred.push((o.id, pr.value)); resp.push(TsRunOrderResponse { id: o.id, value: pr.value, error: std::ptr::null() }); }
+                            else { let s = cs(&format!("v{}", o.id)); let v = tsrun_string(ctx, s.as_ptr()); vals.push(v); resp.push(TsRunOrderResponse { id: o.id, value: v, error: std::ptr::null() }); }
+                        }
                         tsrun_fulfill_orders(ctx, resp.as_ptr(), resp.len());
                         for v in vals { tsrun_value_free(v); }
                         tsrun_step_result_free(&mut r);
+                        if !status.is_empty() { break; }
                     }
                     STEP_DONE => { status = "done".into(); tsrun_step_result_free(&mut r); break; }
                     _ => { status = "err".into(); err = errclass_from_msg(&rs(r.error).unwrap_or_default()); tsrun_step_result_free(&mut r); break; }
